@@ -402,7 +402,78 @@ def judge_all(ctx, drv, rows):
                                         f"{out.count(bytes([13]))} CR bytes, {len(writes)} writes")
 
 
+async def _interleave_run(shape, size, batch_after):
+    """A large outgoing message while the READER task answers a server batch with a rejection error written straight to the
+    child's stdin (protocol version without batching).  The child's stdin yields on every write, as a real pipe may."""
+    class YieldingStdin(type(FakeProcess().stdin)):
+        async def send(self, data):
+            await anyio.sleep(0)
+            await super().send(data)
+            await anyio.sleep(0)
+
+    proc = FakeProcess()
+    proc.stdin = YieldingStdin()
+    big = {"jsonrpc": "2.0", "id": "big", "method": "x/y", "params": {"blob": "x" * size, "tail": "\u2028"}}
+    with patched_open_process(proc):
+        client = new_client()
+        async with client:
+            client.set_protocol_version("2025-06-18")
+            _r, w = client.get_streams()
+            await send_or_giveup(w, {"jsonrpc": "2.0", "id": "before", "method": "a"})
+            if shape == "dict":
+                await send_or_giveup(w, big)
+            elif shape == "str":
+                await send_or_giveup(w, json.dumps(big))
+            else:
+                from chuk_mcp.protocol.messages.json_rpc_message import JSONRPCRequest
+                await send_or_giveup(w, JSONRPCRequest(**big))
+            for _ in range(batch_after):
+                await anyio.sleep(0)
+            proc.stdout.feed(b'[{"jsonrpc":"2.0","method":"notifications/x"}]\n')
+            await send_or_giveup(w, {"jsonrpc": "2.0", "id": "after", "method": "b"})
+            await writer_idle(client, proc)
+            for _ in range(50):
+                await anyio.sleep(0)
+            data = proc.stdin.data()
+            proc.stdout.close()
+    return data, big
+
+
+def check_interleaving(ctx):
+    for shape in ("dict", "str", "typed"):
+        for size in (10, 70_000, 300_000):
+            for batch_after in (0, 1, 2, 3, 5):
+                case = {"interleaving": {"big-message-shape": shape, "bytes": size, "batch-arrives-after-yields": batch_after}}
+                ctx.case(case, nontrivial=True)
+                ctx.count("interleave:size=" + str(size))
+                data, big = anyio.run(_interleave_run, shape, size, batch_after)
+                ctx.spec_total += 1
+                lines = data.split(b"\n")
+                if lines[-1] != b"":
+                    ctx.spec_violation("interleaved:stream-not-newline-terminated", case, f"tail {lines[-1][:60]!r}")
+                    continue
+                docs, bad = [], None
+                for ln in lines[:-1]:
+                    try:
+                        docs.append(json.loads(ln.decode("utf-8")))
+                    except Exception:
+                        bad = ln
+                        break
+                if bad is not None:
+                    ctx.spec_violation("interleaved:line-is-not-a-json-document", case,
+                                       f"a line of {len(bad)} bytes starting {bad[:50]!r} ... is not JSON: another writer's bytes "
+                                       f"ended up inside a message's line")
+                    continue
+                ids = [d.get("id") for d in docs if "method" in d]
+                if ids != ["before", "big", "after"] or big not in docs:
+                    ctx.spec_violation("interleaved:message-lost-or-reordered", case, f"request ids on the wire: {ids}")
+                n_err = sum(1 for d in docs if "error" in d)
+                if n_err != 1:
+                    ctx.spec_violation("interleaved:rejection-error-count", case, f"{n_err} rejection errors written for one batch")
+
+
 def explore(ctx, drv):
+    check_interleaving(ctx)
     policy = anyio.run(_probe_policy)
     ctx.extra["raw_string_policy_of_tree_under_test"] = "Verbatim (as before the fix)" if policy == 0 else "Recompact (as /repo HEAD)"
     ctx.extra["tree_under_test"] = lib.REPO
